@@ -724,5 +724,563 @@ func ruleR15t(c *Ctx, r *Report) {
 			}
 		}
 	}
+	// and a block that was NOT counted before is counted, whatever it holds: the only way past the
+	// additions to a success return is the seen-before outcome
+	if bad == "" {
+		cut := edgeSet(seen)
+		addBlocks := map[*ssa.BasicBlock]bool{}
+		for _, st := range adds {
+			addBlocks[st.Block()] = true
+		}
+		for _, b := range op.Blocks {
+			for i, sc := range b.Succs {
+				if addBlocks[sc] {
+					cut[Edge{From: b, Succ: i}] = true
+				}
+			}
+		}
+		rs := reach(op, nil, cut)
+		for _, ret := range returnsOf(op) {
+			if !rs[ret.Block()] || addBlocks[ret.Block()] || len(ret.Results) < 2 {
+				continue
+			}
+			rv := retResult(ret, len(ret.Results)-1)
+			if isNilConst(rv) || nilness(rv, ret.Block()) == 1 {
+				bad = fmt.Sprintf("the opener can return a reader at %s for a block it has not counted before without adding its section size", c.Pos(ret.Pos()))
+			}
+		}
+	}
 	r.Check(bad == "", key, c.Pos(op.Pos()), "a block's section size is added only when the block is counted for the first time", bad+": the teeing link system writes a block once however often the traversal loads it, so with a repeated link and link-visit-once off the announced size exceeds the bytes written and the writer fails with ErrSizeMismatch after the fact")
+}
+
+// ---- round 11: arithmetic and boundaries -----------------------------------------------------------
+
+// R15v: traversalCar.WriteTo reports every byte it handed to the writer. Each call that writes and
+// returns a count (the header, the payload pass, the index padding, the index) is part of the count
+// returned on every return that follows it.
+func ruleR15v(c *Ctx, r *Report) {
+	fn, err := c.Func(modV2, "traversalCar", "WriteTo")
+	if err != nil {
+		r.InfraFail("%v", err)
+		return
+	}
+	n := 0
+	eachInstr(fn, func(in ssa.Instruction) {
+		ci, ok := in.(*ssa.Call)
+		if !ok {
+			return
+		}
+		name := ""
+		if ci.Call.IsInvoke() {
+			name = ci.Call.Method.Name()
+		} else if f := calleeFunc(ci.Common()); f != nil {
+			name = f.Name()
+		}
+		switch name {
+		case "Write", "WriteTo", "WriteV1", "WriteV2Header":
+		default:
+			return
+		}
+		sig := ci.Common().Signature()
+		if sig == nil || sig.Results().Len() < 2 || !isIntegral(sig.Results().At(0).Type()) {
+			return
+		}
+		n++
+		key := fmt.Sprintf("count-includes-write@%s#%s%d", fnKey(fn), name, n)
+		cnt := extractOf(ci, 0)
+		bad := ""
+		for _, ret := range returnsOf(fn) {
+			if !instrReaches(in, ret) || len(ret.Results) == 0 {
+				continue
+			}
+			has := false
+			if cnt != nil {
+				for _, o := range origins(retResult(ret, 0), originOpts{binops: true}) {
+					if o.Kind == "call" {
+						if cl, _ := callOf(o.Val); cl == ci {
+							has = true
+						}
+					}
+				}
+			}
+			if !has {
+				bad = fmt.Sprintf("the count returned at %s leaves out what %s at %s wrote", c.Pos(ret.Pos()), name, c.Pos(ci.Pos()))
+			}
+		}
+		r.Check(bad == "", key, c.Pos(ci.Pos()), "its count is part of every later return", bad+": io.WriterTo callers use the returned count as the number of bytes now in the destination (to position what follows, to check against the announced size)")
+	})
+	if n < 3 {
+		r.Undec("count-includes-write@"+fnKey(fn), c.Pos(fn.Pos()), fmt.Sprintf("only %d counting writes found in traversalCar.WriteTo", n))
+	}
+}
+
+// R15u: the payload pass of the selective writer starts its offsets at the size of the CARv1 header
+// it has just written: offsets in the index are payload-relative, paddings are the header's business.
+func ruleR15u(c *Ctx, r *Report) {
+	fn, err := c.Func(modV2, "traversalCar", "WriteV1")
+	if err != nil {
+		r.InfraFail("%v", err)
+		return
+	}
+	key := "tee-starts-after-header@" + fnKey(fn)
+	calls := callsToFunc(fn, pkgLoader, "", "TeeingLinkSystem")
+	if len(calls) != 1 {
+		r.Undec(key, c.Pos(fn.Pos()), "expected one TeeingLinkSystem call in WriteV1")
+		return
+	}
+	bad := ""
+	for v := range flowSources(calls[0].Common().Args[2]) {
+		if fv, _ := fieldOfLoad(canon(v)); fv != nil && (fv.Name() == "DataPadding" || fv.Name() == "IndexPadding" || fv.Name() == "DataOffset") {
+			bad = fmt.Sprintf("the initial offset handed to the teeing link system includes %s", fv.Name())
+		}
+	}
+	r.Check(bad == "", key, c.Pos(calls[0].Pos()), "initial offset = size of the CARv1 header written", bad+": the tee's running size is what WriteV1 returns as the payload size and what the index offsets are relative to; a padding added here inflates the announced data size and shifts every index entry")
+}
+
+// R12x: Resume leaves the writer where the next section goes, whatever it found.
+func ruleR12x(c *Ctx, r *Report) {
+	fn, err := c.Func(pkgStore, "", "Resume")
+	if err != nil {
+		r.InfraFail("%v", err)
+		return
+	}
+	key := "writer-positioned@" + fnKey(fn)
+	var seeks []*ssa.Call
+	eachInstr(fn, func(in ssa.Instruction) {
+		ci, ok := in.(*ssa.Call)
+		if !ok {
+			return
+		}
+		name := ""
+		if ci.Call.IsInvoke() {
+			name = ci.Call.Method.Name()
+		} else if f := calleeFunc(ci.Common()); f != nil {
+			name = f.Name()
+		}
+		if name != "Seek" {
+			return
+		}
+		recv := callArgs(ci.Common())[0]
+		if p, ok := canon(recv).(*ssa.Parameter); ok && strings.Contains(strings.ToLower(p.Name()), "writer") {
+			seeks = append(seeks, ci)
+		}
+	})
+	if len(seeks) == 0 {
+		r.Undec(key, c.Pos(fn.Pos()), "Resume does not Seek its data writer parameter")
+		return
+	}
+	cut := EdgeSet{}
+	seekBlock := map[*ssa.BasicBlock]bool{}
+	for _, s := range seeks {
+		seekBlock[s.Block()] = true
+	}
+	for _, b := range fn.Blocks {
+		for i, s := range b.Succs {
+			if seekBlock[s] {
+				cut[Edge{From: b, Succ: i}] = true
+			}
+		}
+	}
+	bad := ""
+	rs := reach(fn, nil, cut)
+	for _, ret := range returnsOf(fn) {
+		if !rs[ret.Block()] || seekBlock[ret.Block()] || len(ret.Results) == 0 {
+			continue
+		}
+		rv := retResult(ret, len(ret.Results)-1)
+		if nilness(rv, ret.Block()) != 2 {
+			bad = fmt.Sprintf("Resume can return at %s without having positioned the data writer (and not with an error known to be non-nil)", c.Pos(ret.Pos()))
+		}
+	}
+	r.Check(bad == "", key, c.Pos(seeks[0].Pos()), "every return that may report success is behind dataWriter.Seek", bad+": a writer left at the start of the payload overwrites the CARv1 header with the next section (a file reopened before its first block)")
+}
+
+// R20q: after a once-only callback was spliced out of the list, the loop looks at the same slot again.
+func ruleR20q(c *Ctx, r *Report) {
+	fn, err := c.Func(pkgDeferred, "DeferredCarWriter", "Put")
+	if err != nil {
+		r.InfraFail("%v", err)
+		return
+	}
+	key := "slot-revisited-after-splice@" + fnKey(fn)
+	// the splice: a store to the putCb field of an append result
+	var splice *ssa.Store
+	eachInstr(fn, func(in ssa.Instruction) {
+		st, ok := in.(*ssa.Store)
+		if !ok {
+			return
+		}
+		fa, ok := st.Addr.(*ssa.FieldAddr)
+		if !ok {
+			return
+		}
+		if fv := fieldVar(fa.X.Type(), fa.Field); fv == nil || fv.Name() != "putCb" {
+			return
+		}
+		if cl, _ := callOf(canon(st.Val)); cl != nil {
+			if b, ok := cl.Call.Value.(*ssa.Builtin); ok && b.Name() == "append" {
+				splice = st
+			}
+		}
+	})
+	if splice == nil {
+		r.Undec(key, c.Pos(fn.Pos()), "no splice of putCb (append of two sub-slices) found in Put")
+		return
+	}
+	// the loop index: the integer phi that indexes putCb
+	var idx *ssa.Phi
+	eachInstr(fn, func(in ssa.Instruction) {
+		ia, ok := in.(*ssa.IndexAddr)
+		if !ok {
+			return
+		}
+		if ph, ok := ia.Index.(*ssa.Phi); ok && len(ph.Edges) >= 2 && isIntegral(ph.Type()) {
+			idx = ph
+		}
+	})
+	if idx == nil {
+		r.Undec(key, c.Pos(fn.Pos()), "loop index over putCb not found")
+		return
+	}
+	// blocks on a way from the splice to the loop header
+	after := map[*ssa.BasicBlock]bool{splice.Block(): true}
+	for work := []*ssa.BasicBlock{splice.Block()}; len(work) > 0; {
+		b := work[len(work)-1]
+		work = work[:len(work)-1]
+		for _, s := range b.Succs {
+			if s != idx.Block() && !after[s] {
+				after[s] = true
+				work = append(work, s)
+			}
+		}
+	}
+	// the value the index takes for the next iteration on the path through the splice
+	var eval func(v ssa.Value, depth int) (int64, bool) // v == idx + k on that path
+	eval = func(v ssa.Value, depth int) (int64, bool) {
+		if depth > 8 {
+			return 0, false
+		}
+		if v == ssa.Value(idx) {
+			return 0, true
+		}
+		switch x := v.(type) {
+		case *ssa.BinOp:
+			if k, ok := constInt(x.Y); ok && (x.Op == token.ADD || x.Op == token.SUB) {
+				if b, ok2 := eval(x.X, depth+1); ok2 {
+					if x.Op == token.ADD {
+						return b + k, true
+					}
+					return b - k, true
+				}
+			}
+		case *ssa.Phi:
+			for i, e := range x.Edges {
+				p := x.Block().Preds[i]
+				if p == splice.Block() || splice.Block().Dominates(p) {
+					return eval(e, depth+1)
+				}
+			}
+		}
+		return 0, false
+	}
+	_ = after
+	bad := ""
+	found := false
+	for i, e := range idx.Edges {
+		if idx.Block().Preds[i].Dominates(idx.Block()) && !idx.Block().Dominates(idx.Block().Preds[i]) {
+			continue // the entry edge
+		}
+		if !after[idx.Block().Preds[i]] {
+			continue // a way round the loop that does not pass the splice
+		}
+		k, ok := eval(e, 0)
+		if !ok {
+			continue
+		}
+		found = true
+		if k != 0 {
+			bad = fmt.Sprintf("after the splice the loop goes on with index i%+d", k)
+		}
+	}
+	if !found {
+		r.Undec(key, c.Pos(splice.Pos()), "the index carried to the next iteration after the splice could not be expressed as i + k")
+		return
+	}
+	r.Check(bad == "", key, c.Pos(splice.Pos()), "next index after a splice = i", bad+": the splice moved the following entry into slot i, so going on with i+1 skips it — the callback registered right after a once-only one is not called for that Put")
+}
+
+// R03z: ReadOrGenerateIndex generates the index of a CARv2 over its payload window. The offsets an
+// index holds are payload-relative; a walk over the whole file from DataOffset on records absolute
+// positions (and is not bounded by DataSize).
+func ruleR03z(c *Ctx, r *Report) {
+	fn, err := c.Func(modV2, "", "ReadOrGenerateIndex")
+	if err != nil {
+		r.InfraFail("%v", err)
+		return
+	}
+	key := "generated-over-payload@" + fnKey(fn)
+	gens := callsToFunc(fn, modV2, "", "GenerateIndex")
+	if len(gens) == 0 {
+		r.Undec(key, c.Pos(fn.Pos()), "ReadOrGenerateIndex does not call GenerateIndex")
+		return
+	}
+	// the version-2 outcome of the version switch
+	isV2 := condEdges(fn, func(base ssa.Value) (bool, bool) {
+		b, ok := base.(*ssa.BinOp)
+		if !ok || b.Op != token.EQL {
+			return false, false
+		}
+		if k, ok := constInt(b.Y); ok && k == 2 {
+			return true, true
+		}
+		if k, ok := constInt(b.X); ok && k == 2 {
+			return true, true
+		}
+		return false, false
+	})
+	bad := ""
+	n := 0
+	for _, e := range isV2 {
+		rs := reachFromEdge(fn, e, nil)
+		for _, g := range gens {
+			if !rs[g.Block()] {
+				continue
+			}
+			n++
+			ok := false
+			for _, o := range origins(g.Common().Args[0], originOpts{}) {
+				if o.Kind == "call" && funcIs(o.Fn, modV2, "Reader", "DataReader") {
+					ok = true
+				} else {
+					ok = false
+					break
+				}
+			}
+			if !ok {
+				bad = fmt.Sprintf("for a CARv2 the index is generated at %s over something other than Reader.DataReader()", c.Pos(g.Pos()))
+			}
+		}
+	}
+	if n == 0 {
+		r.Undec(key, c.Pos(fn.Pos()), "no GenerateIndex call found on the version-2 branch")
+		return
+	}
+	r.Check(bad == "", key, c.Pos(fn.Pos()), "CARv2 without index: GenerateIndex(v2r.DataReader())", bad+": index offsets are payload-relative; generated over the file from DataOffset on they are all too large by DataOffset, every lookup resolves but lands in another section")
+}
+
+// R03A: LoadIndex tests the end of the payload before it reads a section length, not only after it
+// has stepped over a section. A CARv2 whose payload holds no section at all (a finalized store
+// nothing was put into) ends right behind the inner header: a scan that reads first decodes the
+// padding or the index as a section (D21).
+func ruleR03A(c *Ctx, r *Report) {
+	fn, err := c.Func(modV2, "", "LoadIndex")
+	if err != nil {
+		r.InfraFail("%v", err)
+		return
+	}
+	key := "payload-end-test-before-read@" + fnKey(fn)
+	isSize := func(v ssa.Value) bool {
+		hasField := false
+		for _, o := range origins(v, originOpts{}) {
+			switch {
+			case o.Kind == "field" && o.Field != nil && o.Field.Name() == "DataSize":
+				hasField = true
+			case o.Kind == "const":
+			default:
+				return false
+			}
+		}
+		return hasField
+	}
+	tests := map[*ssa.BasicBlock]bool{}
+	for _, b := range fn.Blocks {
+		// the comparison may be the branch condition itself or feed it through the result of an
+		// inlined predicate helper: the block that computes it counts
+		for _, in := range b.Instrs {
+			cmp, ok := in.(*ssa.BinOp)
+			if !ok {
+				continue
+			}
+			switch cmp.Op {
+			case token.GEQ, token.GTR, token.LSS, token.LEQ:
+			default:
+				continue
+			}
+			var other ssa.Value
+			switch {
+			case isSize(cmp.Y) && !isSize(cmp.X):
+				other = cmp.X
+			case isSize(cmp.X) && !isSize(cmp.Y):
+				other = cmp.Y
+			default:
+				continue
+			}
+			if _, isConst := constInt(other); isConst {
+				continue
+			}
+			tests[b] = true
+		}
+	}
+	// the `dataSize != 0 &&` in front of the test: a block that branches on DataSize against zero
+	// and has the test as a successor
+	gate := map[*ssa.BasicBlock]bool{}
+	for _, b := range fn.Blocks {
+		if len(b.Instrs) == 0 {
+			continue
+		}
+		iff, ok := b.Instrs[len(b.Instrs)-1].(*ssa.If)
+		if !ok {
+			continue
+		}
+		base, _ := condNorm(iff.Cond)
+		cmp, ok := base.(*ssa.BinOp)
+		if !ok || cmp.Op != token.EQL && cmp.Op != token.NEQ && cmp.Op != token.GTR && cmp.Op != token.LEQ {
+			continue
+		}
+		zero := func(v ssa.Value) bool { k, ok := constInt(v); return ok && k == 0 }
+		if !(isSize(cmp.X) && zero(cmp.Y) || isSize(cmp.Y) && zero(cmp.X)) {
+			continue
+		}
+		for _, s := range b.Succs {
+			if tests[s] {
+				gate[b] = true
+			}
+		}
+	}
+	var reads []*ssa.Call
+	eachInstr(fn, func(in ssa.Instruction) {
+		if ci, ok := in.(*ssa.Call); ok && ci.Parent() == fn {
+			if f := calleeFunc(ci.Common()); funcIs(f, pkgVarint, "", "ReadUvarint") {
+				reads = append(reads, ci)
+			}
+		}
+	})
+	switch {
+	case len(tests) == 0:
+		r.Undec(key, c.Pos(fn.Pos()), "no end-of-payload test against DataSize found")
+		return
+	case len(reads) == 0:
+		r.Undec(key, c.Pos(fn.Pos()), "no section-length read (varint.ReadUvarint) found")
+		return
+	}
+	seen := map[*ssa.BasicBlock]bool{fn.Blocks[0]: true}
+	work := []*ssa.BasicBlock{fn.Blocks[0]}
+	for len(work) > 0 {
+		b := work[len(work)-1]
+		work = work[:len(work)-1]
+		if tests[b] || gate[b] {
+			continue
+		}
+		for _, s := range b.Succs {
+			if !seen[s] {
+				seen[s] = true
+				work = append(work, s)
+			}
+		}
+	}
+	bad := ""
+	for _, rd := range reads {
+		if seen[rd.Block()] && !tests[rd.Block()] && !gate[rd.Block()] {
+			bad = fmt.Sprintf("the section length read at %s is reached without the end-of-payload test (position against DataSize) having been made: the test only follows a section, so a CARv2 whose payload holds no sections is read past its payload — the padding or the index is decoded as a section and GenerateIndex fails on a valid file", c.Pos(rd.Pos()))
+		}
+	}
+	r.Check(bad == "", key, c.Pos(fn.Pos()), fmt.Sprintf("%d section-length read(s), each behind the end-of-payload test on every path", len(reads)), bad)
+}
+
+// R09x: the length a single-width bucket announces is refused when it does not fit an int64 — the
+// announced length itself (plus what is being added to it), not a quantity derived from it. The
+// value is handed to io.CopyN as int64(dataLen): a negative count copies nothing and reports
+// success, which leaves a bucket that claims records it does not hold (lookups index out of range).
+func ruleR09x(c *Ctx, r *Report) {
+	fn, err := c.Func(pkgIndex, "singleWidthIndex", "checkUnmarshalLengths")
+	if err != nil {
+		r.InfraFail("%v", err)
+		return
+	}
+	key := "length-fits-int64@" + fnKey(fn)
+	if len(fn.Params) < 3 {
+		r.Undec(key, c.Pos(fn.Pos()), "checkUnmarshalLengths has no length parameter")
+		return
+	}
+	// the length parameter: the first uint64 parameter after the receiver
+	var lenP *ssa.Parameter
+	for _, p := range fn.Params[1:] {
+		if b, ok := p.Type().Underlying().(*types.Basic); ok && b.Kind() == types.Uint64 {
+			lenP = p
+			break
+		}
+	}
+	if lenP == nil {
+		r.Undec(key, c.Pos(fn.Pos()), "no uint64 length parameter found")
+		return
+	}
+	env := &AffEnv{name: func(v ssa.Value) string {
+		if p, ok := v.(*ssa.Parameter); ok {
+			if p == lenP {
+				return "LEN"
+			}
+			return "param:" + p.Name()
+		}
+		return ""
+	}}
+	found, bad := false, ""
+	for _, b := range fn.Blocks {
+		if len(b.Instrs) == 0 {
+			continue
+		}
+		iff, ok := b.Instrs[len(b.Instrs)-1].(*ssa.If)
+		if !ok {
+			continue
+		}
+		base, neg := condNorm(iff.Cond)
+		cmp, ok := base.(*ssa.BinOp)
+		if !ok {
+			continue
+		}
+		// int64(x) < 0 or int64(x) >= 0
+		var conv *ssa.Convert
+		switch {
+		case cmp.Op == token.LSS || cmp.Op == token.GEQ:
+			if k, isK := constInt(cmp.Y); isK && k == 0 {
+				conv, _ = cmp.X.(*ssa.Convert)
+			}
+		case cmp.Op == token.GTR || cmp.Op == token.LEQ:
+			if k, isK := constInt(cmp.X); isK && k == 0 {
+				conv, _ = cmp.Y.(*ssa.Convert)
+			}
+		}
+		_ = neg
+		if conv == nil {
+			continue
+		}
+		to, _ := conv.Type().Underlying().(*types.Basic)
+		from, _ := conv.X.Type().Underlying().(*types.Basic)
+		if to == nil || from == nil || to.Kind() != types.Int64 || from.Info()&types.IsUnsigned == 0 {
+			continue
+		}
+		rejects := false
+		for _, s := range b.Succs {
+			if blockRejects(s) {
+				rejects = true
+			}
+		}
+		if !rejects {
+			continue
+		}
+		found = true
+		a := env.of(conv.X)
+		okForm := a.T["LEN"] == 1
+		for atom := range a.T {
+			if atom != "LEN" && !strings.HasPrefix(atom, "param:") {
+				okForm = false
+			}
+		}
+		if !okForm {
+			bad = fmt.Sprintf("the int64 overflow test at %s is made on %s, not on the announced length: a length of 2^63 or more with a width above one divides down into range and passes, and int64(dataLen) handed to io.CopyN is then negative — nothing is copied, success is reported, and the bucket claims records it does not hold", c.Pos(cmp.Pos()), a.String())
+		}
+	}
+	if !found {
+		bad = "no test refuses a length whose conversion to int64 is negative"
+	}
+	r.Check(bad == "", key, c.Pos(fn.Pos()), "int64(dataLen [+ extra]) < 0 is refused", bad)
 }
